@@ -355,6 +355,8 @@ class SNum(Sym):
     def __mul__(self, o):
         if not _is_num(o):
             return NotImplemented
+        if isinstance(o, float) and o != o:
+            return o                      # NaN propagates (it must be discarded by a later select, else Inconclusive)
         if _is_zero(o):
             return 0
         if _is_one(o):
